@@ -5,6 +5,7 @@ harness writes, one result line per input line. Imports no Mathlib (links as an 
 import Rscp.Wire
 import Rscp.Model.Codec
 import Rscp.Spec.Frame
+import Driver.Hist
 open Rscp Rscp.Wire
 
 def optMsgs : Option (List Msg) → String
@@ -19,6 +20,7 @@ def parseHexList : List String → Option (List (List Byte))
     pure (a :: b)
 
 def step (line : String) : String :=
+  if line.startsWith "hist " then Driver.runHist line else
   match line.splitOn " " with
   | ["dec", h] =>
     match bytesOfHex h with
@@ -50,7 +52,7 @@ def step (line : String) : String :=
 partial def loop (hin : IO.FS.Stream) (hout : IO.FS.Stream) : IO Unit := do
   let line ← hin.getLine
   if line.isEmpty then return ()
-  let l := if line.endsWith "\n" then line.dropRight 1 else line
+  let l := if line.endsWith "\n" then (line.dropEnd 1).toString else line
   hout.putStrLn (step l)
   loop hin hout
 
